@@ -11,6 +11,7 @@ import (
 // race detector sees exactly the happens-before edges the real primitive gives.
 
 type Locker = stdsync.Locker
+
 // Cond is a condition variable at simulator level: Wait releases L, parks the task
 // in the scheduler (not the OS thread that holds the baton) until a later Signal or
 // Broadcast, and takes L again. Outside a simulated run the real sync.Cond is used.
@@ -83,6 +84,7 @@ func (c *Cond) Broadcast() {
 	}
 	Yield(YAtomic, 0)
 }
+
 // Map wraps the real sync.Map: every operation is a yield point (so that the window
 // between a Load and a later Store of a check-then-act sequence can be entered, as
 // at the atomic seam), the real map gives the race detector the real Store -> Load
